@@ -240,7 +240,7 @@ Lemma disconnect_ordinary_good st' c :
   mon_ext st' -> clean st' -> M c = false -> is_monitor st' c = false -> Forall item_good (snd (disconnect st' c)).
 Proof.
   intros He Hc Hm Hnm. unfold disconnect. rewrite Hnm.
-  set (st1 := mkState (filter (fun x => negb (x =? c)) (st_conns st')) (st_next st') (st_own st')
+  set (st1 := upd st' (filter (fun x => negb (x =? c)) (st_conns st')) (st_next st') (st_own st')
                       (drop_rules (st_rules st') c) (st_mrules st') (st_mons st') (st_pend st')).
   assert (He1 : mon_ext st1) by (apply (mon_ext_same st'); auto).
   assert (Hc1 : clean st1).
@@ -263,7 +263,7 @@ Lemma become_monitor_good st' c s fs :
 Proof.
   intros He Hc Hm. unfold become_monitor.
   set (fs' := match fs with [] => [empty_filter] | _ => fs end).
-  set (st1 := mkState (st_conns st') (st_next st') (st_own st') (st_rules st')
+  set (st1 := upd st' (st_conns st') (st_next st') (st_own st') (st_rules st')
                       (st_mrules st' ++ map (fun f => (c, f)) fs') (st_mons st') (st_pend st')).
   assert (Hforeign : forall x own from addr m, M x = true -> wantsb own true (map (fun f => (c, f)) fs') x from addr m = false).
   { intros x own from addr m Hx. apply wantsb_foreign. intros r H. apply in_map_iff in H. destruct H as (f & <- & _).
@@ -274,7 +274,7 @@ Proof.
   assert (Hc1 : clean st1) by exact Hc.
   destruct (release_all st1 c (owned (st_own st1) c)) as [st2 rel] eqn:E2.
   pose proof (release_all_state st1 c (owned (st_own st1) c)) as H2. rewrite E2 in H2. simpl in H2.
-  set (st3 := mkState (st_conns st2) (st_next st2) (st_own st2) (drop_rules (st_rules st2) c)
+  set (st3 := upd st2 (st_conns st2) (st_next st2) (st_own st2) (drop_rules (st_rules st2) c)
                       (st_mrules st2) (st_mons st2 ++ [c]) (st_pend st2)).
   destruct (noreply_items st3 c) as [st4 nr] eqn:E4. simpl.
   constructor; [apply from_driver_good; auto|].
@@ -295,7 +295,7 @@ Lemma connect_good st' :
   mon_ext st' -> clean st' -> M (st_next st') = false -> Forall item_good (snd (connect st')).
 Proof.
   intros He Hc Hm. unfold connect. simpl.
-  set (st1 := mkState (st_conns st' ++ [st_next st']) (st_next st' + 1) (st_own st') (st_rules st') (st_mrules st') (st_mons st') (st_pend st')).
+  set (st1 := upd st' (st_conns st' ++ [st_next st']) (st_next st' + 1) (st_own st') (st_rules st') (st_mrules st') (st_mons st') (st_pend st')).
   assert (He1 : mon_ext st1) by (apply (mon_ext_same st'); auto).
   constructor; [apply mk_item_good; auto; try discriminate; intros ? []|].
   constructor; [apply from_driver_good; auto|].
@@ -399,7 +399,7 @@ Theorem send_closes st e x :
   closes st e x.
 Proof.
   intros Hx Ha W Hp. unfold closes.
-  assert (D : fst (disconnect st x) = mkState (filter (fun y => negb (y =? x)) (st_conns st)) (st_next st) (st_own st) (st_rules st)
+  assert (D : fst (disconnect st x) = upd st (filter (fun y => negb (y =? x)) (st_conns st)) (st_next st) (st_own st) (st_rules st)
                 (mm_disconnected (st_mrules st) x) (filter (fun y => negb (y =? x)) (st_mons st)) (st_pend st)
               /\ snd (disconnect st x) = []).
   { unfold disconnect. rewrite Hx. split; reflexivity. }
@@ -444,11 +444,11 @@ Proof.
   unfold to_driver. simpl.
   unfold become_monitor.
   set (fs' := match fs with [] => [empty_filter] | _ => fs end).
-  set (st1 := mkState (st_conns st) (st_next st) (st_own st) (st_rules st)
+  set (st1 := upd st (st_conns st) (st_next st) (st_own st) (st_rules st)
                       (st_mrules st ++ map (fun f => (c, f)) fs') (st_mons st) (st_pend st)).
   destruct (release_all st1 c (owned (st_own st1) c)) as [st2 rel] eqn:E2.
   pose proof (release_all_state st1 c (owned (st_own st1) c)) as H2. rewrite E2 in H2. simpl in H2.
-  set (st3 := mkState (st_conns st2) (st_next st2) (st_own st2) (drop_rules (st_rules st2) c)
+  set (st3 := upd st2 (st_conns st2) (st_next st2) (st_own st2) (drop_rules (st_rules st2) c)
                       (st_mrules st2) (st_mons st2 ++ [c]) (st_pend st2)).
   destruct (noreply_items st3 c) as [st4 nr] eqn:E4.
   pose proof (noreply_items_state st3 c) as H4. rewrite E4 in H4. simpl in H4. simpl. subst st4 st3 st2. simpl.
